@@ -3209,3 +3209,9 @@ pub(crate) fn verif_read_coefficients(
         })
         .collect()
 }
+
+/// the default token probabilities of one plane (8 bands x 3 contexts x 11), flattened
+#[cfg(image_webp_verif)]
+pub(crate) fn verif_default_coeff_probs(plane: usize) -> Vec<u8> {
+    COEFF_PROBS[plane].iter().flatten().flatten().copied().collect()
+}
